@@ -35,3 +35,13 @@ package qtransform
 //@   requires [wired] ctrl != nil && r != nil
 //@   at Destroy #1
 //@     assert [output-destroyed-only-when-teardown-ready] tdReady && tdPtr.blk == mdOf(mappedOut).blk && tdPtr.off == mdOf(mappedOut).off
+//@
+//@ func (*QController[Input, Output]).reconcileRunning
+//@   props C07
+//@   requires [wired] ctrl != nil && r != nil
+//@   at WriterModify #1
+//@     assert [input-finalizer-before-output] (exists k int :: 0 <= k && k < len(mdOf(in).fins) && mdOf(in).fins[k] == ctrl.ControllerName) ||
+//@       (finOK && finPtr.blk == mdOf(in).blk && finPtr.off == mdOf(in).off)
+//@ func (*QController[Input, Output]).reconcileRunning$1
+//@   props C07
+//@   requires [wired] ctrl != nil && ctrl.transformFunc != nil
